@@ -23,6 +23,8 @@ def correspondence(ctx):
         r = synth.frame_ring(rng) if i % 12 == 6 else synth.frame_fse(rng, extreme=(i % 12 == 0))
         if r:
             cand.append(r)
+    # Huffman literals in four streams at tiny sizes (fourth stream empty for 6 and 9 bytes), with and without a treeless second block
+    cand += synth.huf4_small_frames(rng, 80 if ctx.quick() else 1500)
     r = frames.parallel(lambda ch: frames.model_lines(ch), frames.split_chunks(["dec %d %s" % (len(c) + 8, frames.hx(f)) for f, c in cand], 16))
     valid = [(f, rr) for (f, c), rr in zip(cand, r) if rr.startswith("ok")]
     synth_disagree = [(f, c, rr) for (f, c), rr in zip(cand, r) if rr.startswith("ok") and int(rr.split()[1]) != len(c)]
